@@ -27,7 +27,7 @@ type c15Case struct {
 func init() {
 	engine.Register(&engine.Check{
 		ID: "C15", Level: "exploration",
-		Rule:        "2D: every point x every segment and every pair of segments (degenerate ones included) on the 4x4 (thorough 5x5) integer grid, also scaled by 2^20 and translated; point-to-linestring for every polyline of <=3 vertices x every point; perpendicular distance for lines through two distinct points. 3D: every pair of segments with endpoints in {0,1,2}^3 - zero-length first/second/both, parallel, collinear, crossing, touching, skew, optimum outside the unit square in both parameters - plus scaled copies; every point x segment; Z = NaN for xyz.Distance. Oracle: exact rational squared distance (3D by exact minimisation over the clamped parameter square); |result - sqrt(exact)| <= 1e-9 x coordinate scale; never NaN; symmetric in argument order and direction. distinct_nontrivial = distinct argument tuples with non-zero exact distance or touching sets Also: point-to-linestring on 'star' zig-zags with every vertex count 2..70 and 96..1003 in strides 2..5, and long, nearly parallel 3D segments on the grid up to 2^20 (crossing, touching or skew by a few lattice steps); 2D lattice points on and one step beside long segments with rough integer coordinates up to 2^20 (point-segment, point-linestring, collinear segment pairs); ~1000 exactly axis-parallel segments crossed properly by rough segments on grids [-2^k,2^k], k=17..20.",
+		Rule:        "2D: every point x every segment and every pair of segments (degenerate ones included) on the 4x4 (thorough 5x5) integer grid, also scaled by 2^20 and translated; point-to-linestring for every polyline of <=3 vertices x every point; perpendicular distance for lines through two distinct points. 3D: every pair of segments with endpoints in {0,1,2}^3 - zero-length first/second/both, parallel, collinear, crossing, touching, skew, optimum outside the unit square in both parameters - plus scaled copies; every point x segment; Z = NaN for xyz.Distance. Oracle: exact rational squared distance (3D by exact minimisation over the clamped parameter square); |result - sqrt(exact)| <= 1e-9 x coordinate scale; never NaN; symmetric in argument order and direction. distinct_nontrivial = distinct argument tuples with non-zero exact distance or touching sets Also: line strings of 65..200 vertices with exactly one near segment at every index in turn; point-to-linestring on 'star' zig-zags with every vertex count 2..70 and 96..1003 in strides 2..5, and long, nearly parallel 3D segments on the grid up to 2^20 (crossing, touching or skew by a few lattice steps); 2D lattice points on and one step beside long segments with rough integer coordinates up to 2^20 (point-segment, point-linestring, collinear segment pairs); ~1000 exactly axis-parallel segments crossed properly by rough segments on grids [-2^k,2^k], k=17..20.",
 		Run:         c15Run,
 		Replay:      func(c *engine.Ctx, kind string, raw json.RawMessage) { c15Exec(c, decodeCase[c15Case](raw)) },
 		Assumptions: []string{"integer-grid ordinates up to 2^20 (exact squared distances); perpendicular distance only for distinct line points"},
@@ -288,6 +288,42 @@ func c15Run(c *engine.Ctx) {
 						c15Exec(c, c15Case{Mode: "pt-line2", V: v, Stride: 2 + (n+qx+2)%4})
 					}
 				}
+			}
+		}
+	})
+	// line strings of 65..200 vertices in which exactly ONE segment, at every index in turn, comes
+	// near the query point (the vertices before it far away on one side, those after it far away
+	// on the other): a scan that skips or merges runs of segments loses the one that matters
+	type oneSeg struct{ n, k int }
+	var oneSegs []oneSeg
+	for _, n := range []int{65, 66, 129, 130, 200} {
+		for k := 0; k+1 < n; k++ {
+			oneSegs = append(oneSegs, oneSeg{n, k})
+		}
+	}
+	c.Note("one_near_segment_lines", len(oneSegs))
+	c.Parallel(len(oneSegs), func(i int) {
+		j := oneSegs[i]
+		pts := make([][2]float64, j.n)
+		for v := range pts {
+			if v <= j.k {
+				pts[v] = [2]float64{float64(100 + v), float64(100 + (7*v)%13)}
+			} else {
+				pts[v] = [2]float64{float64(-100 - 100*(v-j.k-1)), -60}
+			}
+		}
+		for _, rev := range []bool{false, true} {
+			for _, q := range [][2]float64{{0, 0}, {1, -1}} {
+				v := []ref.F{ref.F(q[0]), ref.F(q[1])}
+				for x := range pts {
+					p := pts[x]
+					if rev {
+						p = pts[j.n-1-x]
+					}
+					v = append(v, ref.F(p[0]), ref.F(p[1]))
+				}
+				c.Count("one_near_segment_queries", 1)
+				c15Exec(c, c15Case{Mode: "pt-line2", V: v, Stride: 2 + (j.k+j.n)%4})
 			}
 		}
 	})
